@@ -109,6 +109,13 @@ def gen_bound(rng):
     if rng.random() < 0.12:
         c["bsync"] = rng.choice(["N", "N", "C", ["E", "b1"]])     # boundaries delivering inside their own subscribe
         c["bnd"] = []
+    elif rng.random() < 0.3:
+        # cold source AND cold boundaries with equal virtual times: the tie is decided by subscription order
+        c["cold"], c["cold_b"] = True, True
+        ts = [m[0] for m in src if m[0] > T0]
+        c["bnd"] = sorted([[t, ["N", 0]] for t in rng.sample(ts, min(len(ts), rng.choice([1, 2, 3])))], key=lambda m: m[0])
+        if rng.random() < 0.4 and ts:
+            c["bnd"].append([max(ts[-1], c["bnd"][-1][0] if c["bnd"] else T0), ["C"]])
     return c
 
 
@@ -457,8 +464,9 @@ def run_real(case, buffer):
     hots = {}
     colds = {}
     for k, tl in timelines_of(case).items():
-        if k == "0" and case.get("cold"):
-            # cold source: messages are scheduled when the operator subscribes (relative times); a logging wrapper
+        if (k == "0" and case.get("cold")) or (k == "1" and case.get("cold_b")):
+            # cold source (and, for window_(boundaries), cold boundaries: subscribed after the source, so at equal virtual
+            # times the source's message comes first): messages are scheduled when the operator subscribes (relative times); a logging wrapper
             # stands in for the spy
             import reactivex as rx
             cold = s.create_cold_observable(*mkrec([[t - t0_of(case), n] for t, n in tl if t >= t0_of(case)]))
@@ -638,13 +646,14 @@ def merged_events(case):
         evs.sort(key=lambda e: e[:3])
         return [e[3] for e in evs]
     for prio, (k, tl) in enumerate(timelines_of(case).items()):
-        cold = k == "0" and case.get("cold")
+        cold = (k == "0" and case.get("cold")) or (k == "1" and case.get("cold_b"))
         for i, (t, n) in enumerate(tl):
             if cold:
-                # a cold source schedules its messages at subscription (t0_of(case)): they come after every hot message and
-                # after the harness' dispose action of their instant, and a message due at t0_of(case) itself is delivered
+                # a cold observable schedules its messages at subscription: they come after every hot message and after
+                # the harness' dispose action of their instant, and a message due at the subscription instant itself is
+                # delivered; cold boundaries are subscribed after the (cold) source: SUBSCRIPTION order decides ties
                 if t >= t0_of(case):
-                    evs.append((t, PRIO_D + 1, i, [t, int(k), n]))
+                    evs.append((t, PRIO_D + 1 + int(k), i, [t, int(k), n]))
             elif t > t0_of(case):
                 evs.append((t, prio, i, [t, int(k), n]))
     if case.get("dispose") is not None:
@@ -985,6 +994,7 @@ def _win(t, cause):
 
 def spec_bound(case):
     ws, alive = [_win(t0_of(case), "init")], True
+    bc = "cold" if case.get("cold_b") else "hot"      # a cold boundary due at the dispose instant comes after the dispose
     bs = case.get("bsync")
     if bs == "N":
         ws[-1]["end"] = (t0_of(case), ["C"], "init")
@@ -999,10 +1009,10 @@ def spec_bound(case):
             if k == 0:
                 ws[-1]["items"].append((t, n[1]))
             else:
-                ws[-1]["end"] = (t, ["C"], "hot")
-                ws.append(_win(t, "hot"))
+                ws[-1]["end"] = (t, ["C"], bc)
+                ws.append(_win(t, bc))
         else:
-            ws[-1]["end"] = (t, n, _sc(case) if k == 0 else "hot")
+            ws[-1]["end"] = (t, n, _sc(case) if k == 0 else bc)
             alive = False
     return ws
 
@@ -1255,6 +1265,8 @@ def nontrivial(case, out):
 def bucket(case, out):
     yield case["op"]
     yield "source:" + ("cold" if case.get("cold") else "hot")
+    if case.get("cold_b"):
+        yield "cold source and cold boundaries at equal instants"
     if case.get("derived") is not None:
         yield "derived from the source (tie order = subscription order):" + case["op"]
     if case.get("us"):
@@ -1372,7 +1384,8 @@ ASSUMPTIONS = [
     "timed operators get the TestScheduler explicitly; window_toggle's right duration empty() completes synchronously (no scheduler "
     "is passed at subscription)",
     "window subscribers subscribe inside the outer on_next and do not raise",
-    "times are integer ticks (float timespans are outside the model)",
+    "model time is integer ticks; float-second / timedelta spans are exercised with 1 tick = 1 microsecond on a HistoricalScheduler "
+    "(spans that are whole microseconds; IEEE rounding of sub-microsecond spans is outside the model)",
 ]
 TRUSTED_EXTRA = ["the static merge of hot timelines in harness/props/C18.py (merged_events) mirrors the TestScheduler's (due, seq) order"]
 LEVEL_TEXT = ("Lean theorems about hand-written models of window_with_count_, window_(boundaries), window_when_, window_toggle_ "
